@@ -285,13 +285,16 @@ CompactLocal(n, thr) == CompactLocalCore(n, thr) /\ evts' = <<>> /\ obs' = ObsUp
 FreeSlots == (1..MaxSlots) \ DOMAIN net
 LowestFree(S) == CHOOSE x \in S : \A y \in S : x <= y
 
-\* put the datagrams of sequence ms into the lowest free slots, in order
+\* put the datagrams of sequence ms into the lowest free slots, in order; a
+\* datagram for which no slot is free is lost at once (the network is lossy
+\* anyway, and the bound on datagrams in flight is a model artefact)
 RECURSIVE Put(_, _)
 Put(nt, ms) ==
   IF ms = <<>> THEN nt
   ELSE LET free == (1..MaxSlots) \ DOMAIN nt
-           s == LowestFree(free)
-       IN Put([x \in DOMAIN nt \cup {s} |-> IF x = s THEN Head(ms) ELSE nt[x]], Tail(ms))
+       IN IF free = {} THEN nt
+          ELSE LET s == LowestFree(free)
+               IN Put([x \in DOMAIN nt \cup {s} |-> IF x = s THEN Head(ms) ELSE nt[x]], Tail(ms))
 
 Without(nt, slot) == [x \in DOMAIN nt \ {slot} |-> nt[x]]
 
@@ -308,7 +311,6 @@ CanGossipTo(a, b) ==
 StartRoundCore(a, b, dseq) ==
   /\ alive[a] /\ CanGossipTo(a, b)
   /\ IsDigestSeq(a, dseq)
-  /\ Cardinality(FreeSlots) >= 1
   /\ net' = Put(net, <<DigMsg(a, b, TRUE, dseq)>>)
   /\ UNCHANGED <<st, armq, alive, susp, written, expiredBy, f4taint, relearned>>
 
@@ -337,7 +339,6 @@ RecvDigestCore(slot, keep, cut, rseq, sendEmpty) ==
                           {[id |-> n, ver |-> acc.vs[n].ver, left |-> acc.vs[n].left] : n \in DOMAIN acc.vs}
                      /\ \A i, j \in DOMAIN rseq : i # j => rseq[i].id # rseq[j].id)
         /\ (~m.req => rseq = <<>>)
-        /\ Cardinality((1..MaxSlots) \ DOMAIN base) >= Len(out1) + Len(out2)
         /\ net' = Put(base, out1 \o out2)
         /\ relearned' = relearned \cup {<<b, n>> : n \in F2Sig(b, newN)}
         /\ UNCHANGED <<armq, alive, susp, written, expiredBy, f4taint>>
@@ -522,7 +523,7 @@ DoDelete(n, k) == DeleteLocal(n, k) /\ DeleteOp(Own(n), k) # Own(n)
 DoLeave(n) == Has("leave") /\ LeaveLocal(n) /\ ~Own(n).left
 DoCompact(n) == Has("compact") /\ CompactLocal(n, 1) /\ Tombstones(Own(n)) # {}
 
-DoRound(a, b) == \E dseq \in DigestSeqs(DigestSet(a)) : StartRound(a, b, dseq)
+DoRound(a, b) == FreeSlots # {} /\ \E dseq \in DigestSeqs(DigestSet(a)) : StartRound(a, b, dseq)
 
 DoRecvDigest(slot, keep, cut) ==
   /\ slot \in DOMAIN net /\ net[slot].t = "dig"
@@ -621,8 +622,9 @@ PrefixConsistent ==
 
 \* C02/C13: own state changes only by local writes; C02: versions never go back
 LocalStepOf(n) ==
-  \/ \E k \in Key, v \in Val : UpsertLocal(n, k, v)
-  \/ \E k \in Key : DeleteLocal(n, k)
+  \/ \E k \in Key \cup {e.k : e \in Own(n)'.ents}, v \in Val \cup {e.v : e \in Own(n)'.ents} :
+       UpsertLocal(n, k, v)
+  \/ \E k \in Key \cup {e.k : e \in Own(n)'.ents} : DeleteLocal(n, k)
   \/ LeaveLocal(n)
   \/ \E thr \in 0..3 : CompactLocal(n, thr)
 OwnStateOnlyLocalStep == \A n \in Node : Own(n)' # Own(n) => LocalStepOf(n)
@@ -648,6 +650,30 @@ LeftOnlyByOwner == \A o \in Node : \A n \in Known(o) : (st[o][n].left /\ Untaint
 LeftStickyStep ==
   \A o \in Node : \A n \in Known(o) : (st[o][n].left /\ n \in DOMAIN st'[o]) => st'[o][n].left
 StaysForgotten == relearned = {}
+\* a node is seen as left exactly by the nodes that hold its left marker
+LeftFlagMatches ==
+  \A o \in Node : \A n \in Known(o) :
+    st[o][n].left <=> (\E e \in st[o][n].ents : e.int /\ e.k = LEFTK /\ ~e.del)
+\* C03: every live node's view of every live node is exactly that node's state
+LiveNode(n) == alive[n] /\ ~Own(n).left
+ConvergedLive ==
+  \A o, n \in Node : (o # n /\ LiveNode(o) /\ LiveNode(n)) =>
+    /\ n \in Known(o)
+    /\ st[o][n].ver = Own(n).ver
+    /\ st[o][n].ents = Own(n).ents
+\* C03: a delivered delta that holds something newer about a known node moves
+\* that view forward (so the version gap shrinks with every productive leg)
+PullProgressFor(slot) ==
+  LET o == net[slot].to IN
+  \A i \in DOMAIN net[slot].d :
+    LET de == net[slot].d[i] IN
+    (de.id # o /\ de.id \in Known(o) /\ \E j \in DOMAIN de.ents : de.ents[j].ver > st[o][de.id].ver)
+      => st'[o][de.id].ver > st[o][de.id].ver
+PullProgressStep ==
+  \A slot \in DOMAIN net : \A keep \in BOOLEAN : RecvDeltaCore(slot, keep) => PullProgressFor(slot)
+
+\* F2 is reachable in the unmasked model (demonstration; expected to FAIL there)
+NoRelearn == relearned = {}
 
 \* C17: the own state as a last-write-wins map.  r[n] maps a key to the value
 \* of the most recent upsert, or to Absent after a delete.
